@@ -335,6 +335,7 @@ EXTRA6 = {
     'C09': "Round 10: xlsx dumps (size / hash / rows / totals of files the writer saves by name; fix e02c01f).",
     'C20': "Round 10: a bystander table of the same database whose name begins like the dumped table's is untouched by every dump.",
     'C15': "Round 10: find_replace over several resources / one specification handed to two steps.",
+    'C02': "Session 4: Typing.tla has update_resource(0, name=...) (rename_res: later steps - join, duplicate, dump_to_sql - address the resource by its new name; a taken name is the caller's precondition).",
     'C16': "Round 10: duplicate of a resource of typed values (sub-second times, zone-aware datetimes, decimals, nested containers) is an exact copy.",
 }
 for _k, _v in EXTRA6.items():
